@@ -1515,9 +1515,10 @@ pub fn generate(seed: u64, cfg: &GenCfg) -> Scenario {
         sc.files.insert(at, f);
     }
     sc.sched = gen_sched(&mut rng, mode);
-    if sc.files.iter().any(|f| f.1.len() > 60_000) || sc.stdin_lines.len() > 60_000 {
-        // a tall input under a one-byte default would mean a million system calls: keep the
-        // listed faults, let the rest pass
+    let volume: usize = sc.files.iter().flat_map(|f| f.1.iter()).chain(sc.stdin_lines.iter()).map(|l| l.len() + 1).sum();
+    if sc.files.iter().any(|f| f.1.len() > 60_000) || sc.stdin_lines.len() > 60_000 || volume > 100_000 {
+        // a tall or voluminous input under a one-byte default would mean a million system calls
+        // (a minute of wall clock for one run): keep the listed faults, let the rest pass
         sc.sched.read_default = Act::Pass;
         sc.sched.write_default = Act::Pass;
     }
